@@ -417,7 +417,7 @@ def gen(args) -> list:
             continue
         for _v in range(4):
             # short absolute-year fields pad and sign small (negative) years: bias the values towards year 0 for them
-            v = textgen.random_value(typ, rnd, cals, 0.5 if any(t in ("u", "uu", "uuu") for t in tokens) else 0.08)
+            v = textgen.random_value(typ, rnd, cals, 0.5 if any(t in ("u", "uu", "uuu", "g", "gg") for t in tokens) else 0.08)
             if typ in ("LocalDate", "LocalDateTime") and any(t in ("MMM", "MMMM", "ddd", "dddd", "g", "gg") for t in tokens):
                 # name fields are in scope only for the 12-month tables of the culture: ISO/Gregorian dates
                 v = v.with_calendar(CalendarSystem.iso) if v.calendar.id not in ("ISO", "Gregorian") else v
